@@ -30,6 +30,7 @@ type MalformedWorld struct {
 	expected map[string]bool
 	probes   int
 	real     []byte // a genuine message announcing a head V already holds
+	wedged   bool   // the victim instance no longer answers: it cannot be closed either
 }
 
 func NewMalformedWorld(entryPoint string) (*MalformedWorld, error) {
@@ -80,7 +81,9 @@ func NewMalformedWorld(entryPoint string) (*MalformedWorld, error) {
 
 func (w *MalformedWorld) Close() {
 	_ = w.A.Close()
-	_ = w.V.Close()
+	if !w.wedged {
+		_ = w.V.Close()
+	}
 	_ = sim.Quiesce()
 }
 
@@ -152,6 +155,25 @@ func (w *MalformedWorld) Probe() string {
 	w.expected[heads[0].Hash.String()] = true
 	// later inputs mutate a message that announces a head the victim holds
 	w.real = msg
+	// the instance that received the input still serves its API: another database can be opened on it (and then
+	// receives messages of its own) and closed again
+	call := async("open another database", func() error {
+		s, err := w.V.DB.Log(bg, fmt.Sprintf("post-%d", w.probes), &orbitdb.CreateDBOptions{Replicate: boolp(true)})
+		if err != nil {
+			return err
+		}
+		return s.Close()
+	})
+	if err := sim.Quiesce(); err != nil {
+		return "not quiescent"
+	}
+	if !call.finished() {
+		w.wedged = true
+		return "opening and closing another database on the receiving instance never returns"
+	}
+	if call.err != nil {
+		return "opening and closing another database on the receiving instance fails: " + call.err.Error()
+	}
 	return ""
 }
 
